@@ -1,2 +1,4 @@
 //! Generators. Every random decision is read from a `Choices` byte stream.
 pub mod text;
+pub mod strlit;
+pub mod syntax;
